@@ -578,3 +578,50 @@ def run_positional(rep, ctx, anchor, rule="R4a"):
                     ("the proof list is read by position at %s but no dominating branch compares its length with the "
                      "claims': surplus claims or proofs go unnoticed" % span), span)
     return n
+
+
+# ---------------------------------------------------------------------------------------------------------
+# R4r: the number of rounds of an inner-product proof is pinned before the proof is used
+def run_rounds(rep, ctx, anchor, proof_adt, field, consumer_suffix, rule="R4r"):
+    """every call of the succinct check (`consumer_suffix`) in the verifier's scope is dominated by a refusal whose
+    condition comes from an equality-capable comparison of the length of `proof.<field>` with something that is not
+    derived from the proof. With one round too many the check polynomial has more coefficients than there are
+    generators, the recomputation of the final key truncates them silently, and the extra round's (L, R) can be
+    chosen so that any claimed value verifies (finding F8)."""
+    from .meet import comparison_sites
+    g = ctx.graph(anchor)
+    f = ctx.facts
+    src = ("FIELD", proof_adt, field)
+    if src not in g.fwd:
+        rep.add(rule, "%s:rounds-pinned" % anchor.key, False, "%s.%s is never read (fail closed)" % (proof_adt, field), anchor.body.span)
+        return 0
+    lens = set()
+    for e in g.fwd.get(src, ()):
+        if e.kind == DATA and e.op in (SHAPE, "fieldshape") and e.dst != OUTCOME:
+            lens.add(e.dst)
+    V = views(g, {src})
+    lens |= shape_seeds(g, V)
+    lp = data_closure(g, lens, limit=400)
+    idx_p = anchor.roles.get("proof")
+    from ..flow import ALIAS
+    from_proof = {st[0] for st in g.reach([(anchor.body.id, idx_p)], typed=False, kinds=(DATA, ALIAS))} if idx_p is not None else set()
+    eqres = set()
+    for (cb, cblk, l, r, res, _sp) in comparison_sites(g, equality_only=True):
+        for (x, y) in ((l, r), (r, l)):
+            if any(n in lp for n in x) and y and not any(n in from_proof for n in y):
+                eqres |= data_closure(g, {res}, limit=200)
+    conds = branch_conditions(g)
+    guards = [(gb, gi) for (gb, gi, c) in conds if c in eqres]
+    memo = {}
+    sites = [(bid, i, t) for bid in sorted(g.scope) for i, t in f.bodies[bid].calls()
+             if (t.get("callee") or "").endswith(consumer_suffix) or (t.get("resolved") or "").endswith(consumer_suffix)]
+    if not sites:
+        rep.add(rule, "%s:rounds-pinned" % anchor.key, False, "no call of %s found in the verifier (fail closed)" % consumer_suffix, anchor.body.span)
+        return 0
+    bad = [t["span"] for (bid, i, t) in sites if not any(guard_dominates(g, gs, (bid, i), memo) for gs in guards)]
+    rep.add(rule, "%s:rounds-pinned" % anchor.key, not bad,
+            "every succinct check (%d call(s)) is preceded by an equality test of the number of rounds against a value that does "
+            "not come from the proof" % len(sites) if not bad else
+            "the succinct check at %s is reached without the number of rounds (len of %s) having been compared with the "
+            "expected log2(d + 1): a proof with an extra round can be forged" % (bad[0], field), bad[0] if bad else anchor.body.span)
+    return len(sites)
